@@ -47,7 +47,9 @@ ASSUMPTIONS = [
 ]
 FLOORS = {"op_inside_controller_context": 5000, "stock_warning_filters": 5000, "views_for_vertices": 80, "cleared_allocation": 100, "failed_transfer": 100, "op_checked": 5000, "confinement_checked": 1500,
           "truncated_transfer": 200, "outside_position_transfer": 100,
-          "closed_or_freed_op": 200, "slice_checked": 500}
+          "closed_or_freed_op": 200, "slice_checked": 500,
+          "twin_view_same_address_other_chip": 200, "twin_view_freed_first": 100,
+          "twin_view_outlives": 100}
 ANCHORS = [("rig.machine_control.machine_controller", "SlicedMemoryIO.read",
             {"read_truncated": "n_bytes = new_n_bytes"}),
            ("rig.machine_control.machine_controller", "SlicedMemoryIO.write",
@@ -205,12 +207,18 @@ class View(object):
 
 def run(case, ctx):
     import random
-    m = M.Machine(1, 1, buffer_size=case["buf"])
+    length = case["length"]
+    # a twin: the same application holds a block on the neighbouring chip as
+    # well (every chip's heap starts at the same address, so the twin's
+    # block usually has the very address of this one)
+    twin_case = bool(case["base"] is None and length and
+                     case["seed"] % 5 == 2 and not case.get("huge"))
+    m = M.Machine(2 if twin_case else 1, 1, buffer_size=case["buf"])
     chip = m.chips[(0, 0)]
     r = M.Rig(m)
     mc, mcm = r.mc, r.mcm
-    length = case["length"]
     rng = random.Random(case["seed"])
+    twin = None
     if case["base"] is None and length and case["seed"] % 5 == 1:
         # the view is one of several handed out by the helper that allocates
         # a block per placed vertex
@@ -293,6 +301,12 @@ def run(case, ctx):
         else:
             root_obj = mc.sdram_alloc_as_filelike(
                 max(length, 0) or 0, **opts) if length else None
+        if twin_case and root_obj is not None:
+            first = case["seed"] % 3 == 0
+            twin = mc.sdram_alloc_as_filelike(length, x=1, y=0, app_id=30)
+            twin_base = twin.address
+            if twin_base == root_obj.address:
+                ctx.hit("twin_view_same_address_other_chip")
         if cleared:
             ctx.hit("cleared_allocation")
             a = root_obj.address
@@ -357,7 +371,34 @@ def run(case, ctx):
         other_pos = 0
         ctx.hit("sibling_view_alive")
     forgotten = False
-    for op in case["ops"]:
+    twin_gone = False
+
+    def twin_works(when):
+        chip1 = m.chips[(1, 0)]
+        try:
+            twin.seek(0)
+            n = twin.write(b"tw")
+            check(n == min(2, length) and
+                  chip1.rd(twin_base, n) == b"tw"[:n], "sibling-view-write",
+                  "the view of the block on the neighbouring chip, %s" % when)
+        except Violation:
+            raise
+        except Exception as e:
+            raise Violation("sibling-view-failed", "the view of the block on "
+                            "the neighbouring chip (same address), %s: %s: %s"
+                            % (when, type(e).__name__, e))
+    for opi, op in enumerate(case["ops"]):
+        if twin is not None and not twin_gone and \
+                opi == len(case["ops"]) // 2 and case["seed"] % 2:
+            # the application is done with the block on the other chip
+            try:
+                (twin.free if case["seed"] % 4 == 1 else twin.close)()
+            except Exception as e:
+                raise Violation("sibling-view-failed", "free/close of the "
+                                "view on the neighbouring chip: %s: %s" %
+                                (type(e).__name__, e))
+            twin_gone = True
+            ctx.hit("twin_view_freed_first")
         if other is not None:
             try:
                 now = other.tell()
@@ -654,6 +695,18 @@ def run(case, ctx):
             v.pos += cnt
             check(v.obj.tell() == v.pos, "position-after-write",
                   "tell() = %d, expected %d" % (v.obj.tell(), v.pos), **where)
+    if twin is not None and not twin_gone:
+        # whatever became of this chip's view (closed, freed, still open),
+        # the block on the other chip is still the application's
+        twin_works("after the history on this chip's view (freed: %s)" %
+                   freed)
+        try:
+            twin.free()
+        except Exception as e:
+            raise Violation("sibling-view-failed", "free of the view on the "
+                            "neighbouring chip: %s: %s" %
+                            (type(e).__name__, e))
+        ctx.hit("twin_view_outlives")
     if (trunc or outside) and slice_of_slice:
         ctx.mark_nontrivial()
     ctx.note(dict(length=length, views=len(views), truncated=trunc,
